@@ -32,7 +32,7 @@ META = {
         'C02.COMMENT-FIRST - comment-only lines are discarded before tokenising; C02.INTCONV - integer cells are converted by int() on the token text. NOT decided: comment/quote parity, '
         'token splitting, interleaved rows, char[] sizing, CRLF handling beyond the continuation pattern - these are '
         'statements about the language the regex chain accepts.'),
-    'floors': {'C02.NAME-EXACT': 1, 'C02.PAT-PAIR': 2, 'C02.ANGLE': 8, 'C02.RAW': 2, 'C02.DISPATCH': 1, 'C02.BINARY': 1,
+    'floors': {'C02.NAME-EXACT': 1, 'C02.PAT-PAIR': 2, 'C02.ANGLE': 8, 'C02.RAW': 2, 'C02.DISPATCH': 1, 'C02.BINARY': 2,
                'C02.CONT': 1, 'C02.INTCONV': 4, 'C02.COMMENT-FIRST': 1, 'C02.PER-INSTANCE': 2, 'C02.TRIM': 2, 'C02.CHARLEN': 2,
                'C02.TOKEN-WS': 1},
 }
@@ -286,10 +286,29 @@ def check_binary(ctx, yc):
     fa = FA(f)
     dec = [c for c in walk_local(f.node) if isinstance(c, ast.Call) and call_name(c) == 'decode']
     ok = None
+    by_content = False
     for c in dec:
         for a in ancestors(c):
             if isinstance(a, ast.If) and "'b' in" in src(a.test) and 'mode' in src(a.test):
                 ok = c
+            if isinstance(a, ast.If) and isinstance(a.test, ast.Call) and call_name(a.test) == 'isinstance' and len(a.test.args) == 2 \
+                    and 'bytes' in src(a.test.args[1]):
+                ok = c
+                by_content = True
+    # a file-like object need not have a .mode (io.StringIO, io.BytesIO, gzip): reading the attribute unguarded refuses them
+    modes = [n for n in walk_local(f.node) if isinstance(n, ast.Attribute) and n.attr == 'mode' and isinstance(n.ctx, ast.Load)]
+    unguarded = []
+    for n in modes:
+        in_try = any(isinstance(a, ast.Try) and any(n in list(ast.walk(b)) for b in a.body) and any(
+            h.type is None or 'AttributeError' in src(h.type) or 'Exception' in src(h.type) for h in a.handlers) for a in ancestors(n))
+        has_test = any(isinstance(a, ast.If) and 'hasattr' in src(a.test) and 'mode' in src(a.test) for a in ancestors(n))
+        if not (in_try or has_test):
+            unguarded.append(n)
+    ctx.check('C02.BINARY', not unguarded, f, unguarded[0] if unguarded else (ok or f.node),
+              '__init__ decides text / binary without requiring a .mode attribute of the file object (%s)' % ('type of the content read' if by_content else 'guarded'),
+              msg='__init__ reads `%s` of whatever file object it is given: io.StringIO and io.BytesIO have no mode attribute (gzip files have an int), so '
+                  '"text or binary file objects" holds only for handles returned by open()' % (src(unguarded[0]) if unguarded else ''),
+              construct='unguarded .mode of the file object')
     parse_calls = [c for c in walk_local(f.node) if isinstance(c, ast.Call) and isinstance(c.func, ast.Attribute) and c.func.attr == '_parse']
     ctx.need(parse_calls, '__init__: _parse() call not found')
     good = ok is not None
